@@ -650,12 +650,6 @@ def rawStoichOf (c : Content) (x : Name) : Except Err (List (Name × Coef)) :=
   let row := c.rxns.filterMap (fun kv => (kv.2.stoich.lookup x).map (fun f => (kv.1, f)))
   if c.rxns.any (fun kv => (omKeys kv.2.stoich).contains x) then .ok row else .error (.keyError x)
 
-def evalReadouts : List (Name × Fn) → Env → Except Err Env
-  | [], env => .ok env
-  | (k, f) :: rest, env => do
-    let v ← f.calc env
-    evalReadouts rest (env.set k v)
-
 /-- `_get_args` including the final `args.pop(data)`: what `get_args`, `get_right_hand_side` and `__call__`
     all work with.  (Since the repair of F-C01-2 state-dependent coefficients are evaluated over
     `args | data`, so the derivative entry points hand `dep ++ c.data` to `rhsFromArgs2` as the coefficients'
@@ -668,7 +662,9 @@ def rawArgs (c : Content) (cache : Cache) (vars : List (Name × Rat)) (t : Rat) 
 def argsRow (c : Content) (cache : Cache) (vars : List (Name × Rat)) (t : Rat) (fl : Flags) :
     Except Err (List (Name × Rat)) := do
   let raw ← rawArgs c cache vars t
-  let raw ← if fl.readouts then evalReadouts c.readouts raw else pure raw
+  -- `scope = self._data | raw; ro.calculate_inpl(name, scope); raw[name] = scope[name]` (readouts may name data sets
+  -- since the repair `fix: readouts can name data sets`): the shared `Mxl.evalReadouts`
+  let raw ← if fl.readouts then Mxl.evalReadouts c.readouts (raw ++ c.data) raw else pure raw
   (argNames c cache fl).mapM fun k => do pure (k, ← Env.get raw k)
 
 /-- the public `get_args(variables, time)` table, then `self._data | args` as lookup environment for
